@@ -167,3 +167,45 @@ def run_faulted_histories(pid, spec, res, make_gen, state_problems,
             res.count('histories')
     finally:
         svc.close()
+
+
+def legacy_injector(svc, names, rng, on_migrated=None, p=0.06):
+    """after_step helper: now and then an allocation row left by an ancient
+    release (no consumer record) appears and the online data migration
+    create_incomplete_consumers() heals it: a consumer at generation 0 with
+    the placeholder project and user.  Returns f(step, res) -> bool."""
+    from pv import monitors
+
+    def legacy(step, res_):
+        d = step.after
+        free = [x for x in names.consumers if x not in d.consumers
+                and x not in {a for (a, _, _) in d.allocs}]
+        usage = d.usage()
+        pairs = sorted(
+            k for k, f in d.inventories.items()
+            if f['min_unit'] <= 1 and f['step_size'] == 1 and
+            monitors.capacity_cmp(f, usage.get(k, 0) + 1) == 'fits')
+        if not free or not pairs or rng.random() > p:
+            return False
+        rp, rc = rng.choice(pairs)
+        import sqlite3
+        con = sqlite3.connect(svc.app.db_path)
+        rp_id = con.execute('SELECT id FROM resource_providers WHERE '
+                            'uuid = ?', (rp,)).fetchone()[0]
+        rc_id = con.execute('SELECT id FROM resource_classes WHERE '
+                            'name = ?', (rc,)).fetchone()[0]
+        con.execute(
+            'INSERT INTO allocations (resource_provider_id, '
+            'consumer_id, resource_class_id, used) VALUES (?,?,?,1)',
+            (rp_id, free[0], rc_id))
+        con.commit()
+        con.close()
+        from placement import context as pcontext
+        from placement.objects import consumer as consumer_obj
+        ctx = pcontext.RequestContext(config=svc.app.conf)
+        consumer_obj.create_incomplete_consumers(ctx, 50)
+        if on_migrated is not None:
+            on_migrated(free[0])
+        res_.count('legacy_consumers_migrated')
+        return True
+    return legacy
